@@ -155,7 +155,11 @@ func main() {
 		name := fmt.Sprintf("logp%d", i)
 		ffiPkgs[name] = fmt.Sprintf("package %s\n\nimport \"log\"\n\nfunc Hello(x uint64) uint64 {\n\tlog.Printf(\"hello %%d from %d\", x)\n\tlog.Println(\"bye\", x)\n\treturn x\n}\n", name, i)
 	}
-	special := []string{"vfield", "logp0", "logp1", "logp2", "tc0", "tc1", "tc2", "tc3", "tc4", "sv0", "sv1", "sv2", "sv3", "blk/store", "mem/store", "fasync", "fdisk", "fnone"}
+	// a package and an importer of it that both mention the same named struct type: translated in
+	// one call the two workers hold the same type object, and each must still print the name its own way
+	ffiPkgs["shr/entry"] = "package entry\n\ntype Entry struct {\n\tK uint64\n\tV uint64\n}\n\nfunc Mk(k uint64) Entry {\n\treturn Entry{K: k, V: 1}\n}\n\nfunc Sum(e Entry) uint64 {\n\treturn e.K + e.V\n}\n"
+	ffiPkgs["shr/client"] = "package client\n\nimport \"gen/g/shr/entry\"\n\nfunc Use(k uint64) uint64 {\n\te := entry.Entry{K: k, V: 2}\n\treturn e.K + entry.Sum(e)\n}\n\nfunc Get(e entry.Entry) uint64 {\n\treturn e.V\n}\n"
+	special := []string{"vfield", "logp0", "logp1", "logp2", "tc0", "tc1", "tc2", "tc3", "tc4", "sv0", "sv1", "sv2", "sv3", "blk/store", "mem/store", "fasync", "fdisk", "fnone", "shr/entry", "shr/client"}
 	for _, name := range special {
 		dir := filepath.Join(mod, "g", name)
 		os.MkdirAll(dir, 0o755)
@@ -245,9 +249,9 @@ func main() {
 	nsub := 0
 	for i := 0; i < *subsets; i++ {
 		var pats []string
-		if i < 5 {
+		if i < 7 {
 			pats = []string{pkgs[len(pkgs)-1-i]} // each FFI / non-FFI / same-name package on its own
-		} else if i < 7 {
+		} else if i < 9 {
 			pats = []string{pkgs[r.Intn(len(pkgs))]} // a package on its own
 		} else {
 			for _, p := range pkgs {
